@@ -998,7 +998,7 @@ def program_c11(rnd):
         mod.append(Let(l, List([elem() for _ in range(n)])))
         cur = n
         for _ in range(rnd.randint(1, 5)):
-            op = rnd.choice(["push", "pop", "insert", "remove", "get", "set", "has", "index", "slice", "rev", "clear", "len", "push3"])
+            op = rnd.choice(["push", "pop", "insert", "remove", "get", "set", "has", "index", "slice", "rev", "clear", "len", "push3", "sort"])
             j = nk()
             L = Var(l)
             if op == "push": e = Invoke(L, "push", [elem()])
@@ -1012,6 +1012,15 @@ def program_c11(rnd):
             elif op == "index": e = Invoke(L, "index", [elem()])
             elif op == "slice": e = Invoke(L, "slice", [idx(cur) for _ in range(rnd.randint(0, 2))])
             elif op == "rev": e = Invoke(L, "rev", [])
+            elif op == "sort":
+                # pure comparators (the order of comparisons is the implementation's own): by length of the
+                # printed form, ascending or descending; constant; one that raises; one that returns no number
+                a, b = f"p{nk()}", f"q{nk()}"
+                key = lambda v: Invoke(Invoke(Var(v), "str", []), "len", [])
+                body = rnd.choice([Bin("-", key(a), key(b)), Bin("-", key(b), key(a)), Num(0), Nil(), Str("x"),
+                                   Bin("/", Num(0), Num(0)), Bin("-", Var(a), Var(b))])
+                c = Lambda([a, b], body) if rnd.random() < 0.8 else Lambda([a, b], Block([Raise(Call(Var("ValueError"), [Str("cmp")]))]))
+                e = Invoke(L, "sort", [c])
             elif op == "clear": e = Invoke(L, "clear", [])
             else: e = Invoke(L, "len", [])
             mod.append(classify([Print(Str(f"#{j} {op}"), e)], j))
